@@ -216,12 +216,12 @@ def run_stream(desc):
     fam, name = desc["family"], desc["name"]
     budget = [None, 0.1, 0.5][desc["seed"] % 3]
     if fam == "bm":
-        obj = streams.make_bm(name, budget, int(rng.choice([1, 5, 100])), int(desc["seed"] % 1000))
+        obj = streams.make_bm(name, budget, int(rng.choice([1, 5, 100])), int(desc["seed"] % 1000), **streams.variant_kwargs(name, desc["seed"]))
         comp = name
     else:
         sname, bmname = name.split("/")
         bm = None if bmname == "None" else streams.make_bm(bmname, budget, 20, 3)
-        extra = {}
+        extra = dict(streams.variant_kwargs(sname, desc["seed"]))
         if sname in ("StreamProbabilisticAL",):
             extra["metric"] = [None, "rbf"][desc["seed"] % 2]
         obj = streams.make_strategy(sname, None if bm is not None else budget, int(desc["seed"] % 1000), bm=bm, **extra)
